@@ -6,7 +6,10 @@
 //
 // Bound: every sequence of at most GOVC_BOUND operations (default 3) from the
 // alphabet below, on one file opened through two read-write handles, for block
-// sizes 2, 3 and 8, compared step by step with a byte-array model.
+// sizes 2, 3 and 8, compared step by step with a byte-array model; then every
+// sequence of at most GOVC_BOUND+1 operations from a reduced alphabet (write
+// 3/5, seek to 2/7, seek to end, truncate to 0/2, read 2 - per handle - and
+// flush), same block sizes.
 
 package arvados
 
@@ -64,19 +67,28 @@ func (o govcOp) String() string {
 }
 
 func govcAlphabet() []govcOp {
+	return govcMakeAlphabet([]int{1, 3, 5}, []int{0, 2, 7}, []int{0, 2, 6}, []int{2, 4})
+}
+
+// the reduced alphabet of the second, one step deeper pass
+func govcReducedAlphabet() []govcOp {
+	return govcMakeAlphabet([]int{3, 5}, []int{2, 7}, []int{0, 2}, []int{2})
+}
+
+func govcMakeAlphabet(writes, seeks, truncs, reads []int) []govcOp {
 	var ops []govcOp
 	for h := 0; h < 2; h++ {
-		for _, k := range []int{1, 3, 5} {
+		for _, k := range writes {
 			ops = append(ops, govcOp{"W", h, k})
 		}
-		for _, off := range []int{0, 2, 7} {
+		for _, off := range seeks {
 			ops = append(ops, govcOp{"S", h, off})
 		}
 		ops = append(ops, govcOp{"E", h, 0})
-		for _, n := range []int{0, 2, 6} {
+		for _, n := range truncs {
 			ops = append(ops, govcOp{"T", h, n})
 		}
-		for _, k := range []int{2, 4} {
+		for _, k := range reads {
 			ops = append(ops, govcOp{"R", h, k})
 		}
 	}
@@ -230,36 +242,46 @@ func TestGovcBoundedC08(t *testing.T) {
 	}
 	saved := maxBlockSize
 	defer func() { maxBlockSize = saved }()
-	alphabet := govcAlphabet()
 	total := 0
-	for _, bs := range []int{2, 3, 8} {
-		maxBlockSize = bs
-		seq := make([]govcOp, 0, bound)
-		var rec func(depth int) bool
-		rec = func(depth int) bool {
-			if depth > 0 {
-				total++
-				if msg := govcRun(seq); msg != "" {
-					t.Errorf("GOVC-BOUNDED-FAIL blocksize=%d sequence=%v: %s", bs, seq, msg)
-					return false
+	failed := false
+	pass := func(alphabet []govcOp, bound, minDepth int) {
+		for _, bs := range []int{2, 3, 8} {
+			maxBlockSize = bs
+			seq := make([]govcOp, 0, bound)
+			var rec func(depth int) bool
+			rec = func(depth int) bool {
+				if depth >= minDepth && depth > 0 {
+					total++
+					if msg := govcRun(seq); msg != "" {
+						t.Errorf("GOVC-BOUNDED-FAIL blocksize=%d sequence=%v: %s", bs, seq, msg)
+						return false
+					}
 				}
-			}
-			if depth == bound {
+				if depth == bound {
+					return true
+				}
+				for _, op := range alphabet {
+					seq = append(seq, op)
+					ok := rec(depth + 1)
+					seq = seq[:len(seq)-1]
+					if !ok {
+						return false
+					}
+				}
 				return true
 			}
-			for _, op := range alphabet {
-				seq = append(seq, op)
-				ok := rec(depth + 1)
-				seq = seq[:len(seq)-1]
-				if !ok {
-					return false
-				}
+			if !rec(0) {
+				failed = true
+				return
 			}
-			return true
-		}
-		if !rec(0) {
-			break
 		}
 	}
-	t.Logf("GOVC-BOUNDED sequences=%d bound=%d alphabet=%d blocksizes=2,3,8", total, bound, len(alphabet))
+	alphabet := govcAlphabet()
+	pass(alphabet, bound, 1)
+	reduced := govcReducedAlphabet()
+	if !failed {
+		// only the sequences of full length: the shorter ones are a subset of pass 1
+		pass(reduced, bound+1, bound+1)
+	}
+	t.Logf("GOVC-BOUNDED sequences=%d bound=%d alphabet=%d reducedbound=%d reducedalphabet=%d blocksizes=2,3,8", total, bound, len(alphabet), bound+1, len(reduced))
 }
